@@ -10,6 +10,8 @@ CONSTANTS
   H = 7
   MaxNow = 30
   MaxNet = 3
+  MaxRxq = 4
+  MaxGwResend = 3
   DupBudget = 2
   LossBudget = 3
   InjBudget = 4
